@@ -1,6 +1,7 @@
 import CatiiProofs.AggProofs
 import CatiiProofs.Bridge
 import CatiiProofs.IIndexWf
+import CatiiProofs.DiffGenBridge
 /-!
 # C05 — results are independent of which category is stored as common
 
@@ -43,5 +44,14 @@ theorem reencoded_dimension_ok (i : IIndex) (N : Nat) (hi : CubeDimOK N i) (v : 
 /-! Non-vacuity -/
 example : CubeDimOK 4 ⟨[([1], [0, 2]), ([2], [1])], 0, [4]⟩ :=
   ⟨wf_sound _ (by decide), rfl, by decide, by decide⟩
+
+
+/-- the pass REGENERATED from the source (`Gen.diffPass`, tools/translate_diff.py) writes exactly the cells whose coordinate
+on the pass's axis is THAT dimension's own common value - the "common slice chosen per dimension from its own common value" of
+the property - and is the modelled pass -/
+theorem generated_pass_uses_each_dimensions_own_common {α : Type} [AddCommGroup α] (exts cms : List Nat) (k : Nat)
+    (R : Cell → α) (c : Cell) :
+    Gen.diffPass.written = (.common, .all) ∧ passOf Gen.diffPass exts cms k R c = passFn exts cms k R c :=
+  ⟨by decide, gen_pass_is_passFn exts cms k R c⟩
 
 end Catii.C05
